@@ -38,6 +38,10 @@ pub enum Ins {
     Fail(String),
     /// reg := balance of the block beneficiary (through the facade)
     Rb(usize),
+    /// read like `R`, but the implementation swallows a facade error and answers with a halt of its own
+    Rs(usize, usize),
+    /// read like `R`, but the implementation ignores a facade error altogether (continues with 0)
+    Ri(usize, usize),
 }
 
 #[derive(Clone, Debug)]
@@ -124,6 +128,10 @@ pub fn named(s: &Scenario, name: &str) -> Address {
         _ => {
             let idx = s.raw["accounts"].as_array().and_then(|l| l.iter().position(|a| a["name"].as_str() == Some(name)))
                 .unwrap_or_else(|| panic!("unknown account name {name}"));
+            // `at`: the account sits at a computed address (e.g. the pre-funded target of a later CREATE)
+            if let Some(at) = s.raw["accounts"][idx]["at"].as_str() {
+                return named(s, at);
+            }
             Address::from(U160::from(970_000u64 + idx as u64))
         }
     }
@@ -150,6 +158,9 @@ impl Scenario {
                 p.as_array()
                     .unwrap()
                     .iter()
+                    // "badnonce" is the specification's marker of a transaction whose nonce is wrong in block order;
+                    // on the code the transaction itself carries the wrong nonce
+                    .filter(|i| i[0].as_str() != Some("badnonce"))
                     .map(|i| {
                         let a = i.as_array().unwrap();
                         match a[0].as_str().unwrap() {
@@ -162,6 +173,8 @@ impl Scenario {
                             ),
                             "fail" => Ins::Fail(a[1].as_str().unwrap().to_owned()),
                             "rb" => Ins::Rb(a[1].as_u64().unwrap() as usize),
+                            "rs" => Ins::Rs(li(&a[1]), a[2].as_u64().unwrap() as usize),
+                            "ri" => Ins::Ri(li(&a[1]), a[2].as_u64().unwrap() as usize),
                             o => panic!("bad instruction {o}"),
                         }
                     })
@@ -451,7 +464,8 @@ pub fn transactions(s: &Scenario) -> Vec<TxEnv> {
                     None if t.to == "h" => holder(),
                     None => driver(),
                 }),
-                data: Bytes::from(vec![t.prog]),
+                // only a call of the driver carries a program index; a plain transfer has no calldata
+                data: if t.to.starts_with('e') || t.to == "ben" || t.to == "h" { Bytes::new() } else { Bytes::from(vec![t.prog]) },
                 value: t.value,
                 gas_limit: t.gas_limit,
                 gas_price: t.gas_price,
@@ -504,6 +518,19 @@ pub fn driver_precompile(s: &Scenario) -> DynParallelPrecompile {
                     regs[*r] = (v % U256::from(1_000_000_007u64)).try_into().unwrap_or(0);
                     ip += 1;
                 }
+                Ins::Rs(l, r) => {
+                    let (a, k) = slots[*l];
+                    match input.state().sload(a, k) {
+                        Ok(v) => regs[*r] = v.data.try_into().unwrap_or(u64::MAX),
+                        Err(_) => return Err(ParallelPrecompileError::Halt(revm::precompile::PrecompileHalt::other_static("value unavailable"))),
+                    }
+                    ip += 1;
+                }
+                Ins::Ri(l, r) => {
+                    let (a, k) = slots[*l];
+                    regs[*r] = input.state().sload(a, k).map_or(0, |v| v.data.try_into().unwrap_or(u64::MAX));
+                    ip += 1;
+                }
                 Ins::Fail(kind) => {
                     return Err(ParallelPrecompileError::Fatal(PrecompileError::Fatal(format!(
                         "scripted {kind}"
@@ -524,6 +551,8 @@ pub fn cfg_env_of(s: &Scenario) -> CfgEnv {
         "CANCUN" => SpecId::CANCUN,
         "PRAGUE" => SpecId::PRAGUE,
         "OSAKA" => SpecId::OSAKA,
+        "AMSTERDAM" => SpecId::AMSTERDAM,
+        "HOMESTEAD" => SpecId::HOMESTEAD,
         _ => SpecId::SHANGHAI,
     };
     let mut c = CfgEnv::new_with_spec(spec);
@@ -602,6 +631,14 @@ pub fn reference(s: &Scenario, universe: &[String], with_fault: bool) -> Referen
 
 /// In-order reference over the first `limit` transactions only.
 pub fn reference_prefix(s: &Scenario, universe: &[String], with_fault: bool, limit: usize) -> Reference {
+    // `ref_progs`: the reference runs the well-behaved twin of a precompile implementation that swallows or ignores
+    // facade errors (the property says the facade's fault takes effect regardless of what the implementation does)
+    if s.raw["ref_progs"].is_array() {
+        let mut raw = s.raw.clone();
+        raw["progs"] = raw["ref_progs"].take();
+        raw.as_object_mut().unwrap().remove("ref_progs");
+        return reference_prefix(&Scenario::from_json(&raw), universe, with_fault, limit);
+    }
     let db = FaultDb::new(database(s), if with_fault { s.fault.clone() } else { None });
     // the fee recipient is loaded up front, as the scheduler does
     let preload = db.basic_ref(account::MINER_ADDRESS).err().map(|e| format!("Database({e:?})"));
@@ -712,6 +749,7 @@ pub fn run_scheduler(s: &Scenario, cfg: Config, workers: usize, force_sequential
     let f2 = fatal.clone();
     ctl.on_fatal(move |v, rec| {
         *f2.lock().unwrap() = Some((v.clone(), rec.clone()));
+        crate::set_fatal(v.clone(), rec.clone());
         // The threads of this run are stuck by construction; the caller's fatal hook (installed
         // by main) reports and exits.
         crate::fatal_exit();
@@ -746,7 +784,11 @@ pub fn run_scheduler(s: &Scenario, cfg: Config, workers: usize, force_sequential
         )),
     };
     let (outcomes, mut state) = scheduler.take_result_and_state();
-    let served = universe.iter().filter_map(|l| loc_value_opt(&state, l).map(|v| (l.clone(), v))).collect();
+    // (a database that panics on a key would panic here as well: then nothing is served)
+    let served = std::panic::catch_unwind(std::panic::AssertUnwindSafe(|| {
+        universe.iter().filter_map(|l| loc_value_opt(&state, l).map(|v| (l.clone(), v))).collect()
+    }))
+    .unwrap_or_default();
     let bundle = state.parallel_take_bundle(BundleRetention::Reverts);
     SchedOutcome {
         served,
@@ -794,6 +836,41 @@ pub fn policy_monitors(s: &Scenario, o: &SchedOutcome, other: &(Result<(), (usiz
     } else if let Some(d) = bundle_diff(&other.2, &o.bundle) {
         v.push(("C06".into(), format!("parallel and sequential paths leave different state under the policy: {d}")));
     }
+    // Substitution oracle: where the rule model says "this frame halts", stock revm on the same
+    // block with the halting code replaced by INVALID (a frame halt that consumes all gas) is exact.
+    if let Some(subst) = s.raw["oracle_alt"].as_object() {
+        let mut raw = s.raw.clone();
+        raw.as_object_mut().unwrap().remove("policy");
+        for acc in raw["accounts"].as_array_mut().unwrap() {
+            if let Some(code) = subst.get(acc["name"].as_str().unwrap()) {
+                acc["code"] = code.clone();
+            }
+        }
+        if let Some(data) = subst.get("tx0.data") {
+            raw["txs"][0]["data"] = data.clone();
+        }
+        let alt = Scenario::from_json(&raw);
+        let r = reference(&alt, &[], false);
+        let sig = |o: &TxExecutionOutcome| match o {
+            TxExecutionOutcome::Skipped(e) => format!("skipped:{e:?}"),
+            TxExecutionOutcome::Executed(x) => format!("{}:gas={}:logs={}:out={:?}", outcome_kind(o), x.gas_used(), x.logs().len(), x.output()),
+        };
+        let have: Vec<_> = o.outcomes.iter().map(sig).collect();
+        let want: Vec<_> = r.outcomes.iter().map(sig).collect();
+        if o.result.is_err() || have != want {
+            v.push((prop.clone(), format!("outcomes differ from stock revm on the block in which the guarded frame halts: {:?} {have:?} vs {want:?}", o.result)));
+        } else if let Some(d) = bundle_diff(&r.bundle, &o.bundle) {
+            v.push((prop.clone(), format!("state differs from stock revm on the block in which the guarded frame halts: {d}")));
+        }
+    }
+    v.extend(expect_monitors(s, o));
+    v
+}
+
+/// The rule model's expected observables (`expect`) of a scenario generated from TLC-enumerated cases.
+pub fn expect_monitors(s: &Scenario, o: &SchedOutcome) -> Vec<(String, String)> {
+    let prop = s.raw["prop"].as_str().unwrap_or("C06").to_owned();
+    let mut v = Vec::new();
     if let Some(exp) = s.raw["expect"]["kinds"].as_object() {
         for (k, want) in exp {
             let k: usize = k.parse().unwrap();
@@ -957,7 +1034,8 @@ pub fn trace_events(s: &Scenario, rec: &RunRecord) -> Vec<Value> {
         "A_Cancel", "M_Post", "S_Tx", "M_Path",
     ];
     let mut out = Vec::new();
-    for e in rec.events.iter().filter(|e: &&Event| e.group & verif::group::SCHED != 0 && KEEP.contains(&e.label)) {
+    for e in rec.events.iter().filter(|e: &&Event| (e.group & verif::group::SCHED != 0 && KEEP.contains(&e.label)) ||
+        (e.group & verif::group::HIST != 0 && e.label == "HE_Record")) {
         // the beneficiary history is not part of the scheduler specification (Beneficiary.tla)
         if matches!(e.label, "R_Read") && let Some(v) = e.string("ver") && v.starts_with("ben") {
             // a read blocked by an unresolved history entry still makes the attempt an estimate
@@ -972,6 +1050,14 @@ pub fn trace_events(s: &Scenario, rec: &RunRecord) -> Vec<Value> {
         let mut j = e.to_json();
         if let Some(l) = e.string("loc") {
             j["loc"] = json!(loc_name(s, l));
+        }
+        if e.label == "C_Nonce" {
+            // nonces are only compared for equality; as text they survive TLC's 32-bit integers
+            for k in ["tx_nonce", "state_nonce"] {
+                if j[k].is_number() {
+                    j[k] = json!(j[k].to_string());
+                }
+            }
         }
         if e.label == "E_Done" {
             if let Some(Val::L(w)) = e.get("writes") {
